@@ -15,10 +15,11 @@ sed -i "s#\"/repo/#\"$SCRATCH/repo/#" "$SCRATCH/verif/sim/Cargo.toml"
 export CARGO_TARGET_DIR="$SCRATCH/target" VERIF_REPO="$SCRATCH/repo" CARGO_NET_OFFLINE=true
 cleanup() { git -C /repo worktree remove --force "$SCRATCH/repo" 2>/dev/null; git -C /repo worktree prune; rm -rf "$SCRATCH"; }
 trap cleanup EXIT
-ids=("$@"); [ ${#ids[@]} -gt 0 ] || ids=($(ls /verif/seeded | grep -E '^C[0-9]+-'))
+SEEDED_DIR=${SEEDED_DIR:-/verif/seeded}   # /verif/reverts holds the reverse patches of the fix: commits
+ids=("$@"); [ ${#ids[@]} -gt 0 ] || ids=($(cd "$SEEDED_DIR" && ls -d */ | tr -d / | grep -E '^(C[0-9]+-|R-)'))
 cd "$SCRATCH/verif"
 for id in "${ids[@]}"; do
-  d=/verif/seeded/$id
+  d=$SEEDED_DIR/$id
   prop=$(python3 -c "import json;m=json.load(open('$d/meta.json'));print(m.get('check',m['property']))")
   git -C "$SCRATCH/repo" checkout -q -- . ; git -C "$SCRATCH/repo" clean -fdq
   if ! git -C "$SCRATCH/repo" apply "$d/patch.diff" 2>/dev/null; then echo "$id $prop PATCH-DOES-NOT-APPLY"; continue; fi
